@@ -47,8 +47,13 @@ def rule_r1(chk, facts):
                     if (key, ln) in seen:
                         continue
                     ok, why = prove.nonzero(P, f, bid, i, n[3])
-                    if not ok and key in R1_EXCEPTIONS:
-                        reason, support = R1_EXCEPTIONS[key]
+                    xkey = key
+                    if not ok and key not in R1_EXCEPTIONS and f.unit.name == 'motpseudo.c' and 'GetWSize' in why:
+                        # the exception is about where the value comes from (GetWSize()), not about the function that
+                        # happens to contain the division
+                        xkey = 'motpseudo.c:DecodeMoto16Pseudo:WSize'
+                    if not ok and xkey in R1_EXCEPTIONS:
+                        reason, support = R1_EXCEPTIONS[xkey]
                         sup_ok = True
                         if support == 'irpn_flag':
                             sup_ok, why2 = support_irpn_flag(P, f, bid, i)
